@@ -153,7 +153,7 @@ def run(chk):
     recs = chk.generate(MODULE, "C03_gen.cfg", "gen", timeout=3000)
     for v in variants:
         chk.replay(recs, v, "generated encodings")
-    chk.validate(driver(chk, 350 if quick else 4000), MODULE, "C03_trace.cfg", "driver", timeout=3000)
+    chk.validate(driver(chk, 260 if quick else 4000), MODULE, "C03_trace.cfg", "driver", timeout=3000)
     return chk.finish(LEVEL,
         "G: TLC enumerates Cases of C03_Codec.tla (token-level products of tags, length forms, content kinds, boundary values, trailing bytes, truncations, byte "
         "mutations; every prefix byte x length x coordinate class; buffer lengths 0..74; s+n / r+n re-encodings of valid signatures) with the design-level theorems "
